@@ -21,7 +21,10 @@ TEXT = {
               '(wrapFailAt_located, wrapAt_located), a failing object is reported at its own line with the evaluation error as '
               "cause (obj_error_located, strict_undefined), a syntax error in an object is reported at the object token's line "
               'which by C05 scan_line_at is start line + preceding newlines (parse_obj_error_line), and a run is output or an '
-              'error, never both (run_output_xor_error). Tie: the `errloc` stream places every kind of failing construct at every '
+              'error, never both (run_output_xor_error). Whole-template form (render_error_line_in_tree, by induction over the render '
+              'tree, for every writer behaviour): every failure of rendering an include-free node tree, and every break/continue that '
+              'reaches the top, is a located error whose line is the line of one of the tree\'s tags, objects or texts (or 0 for a '
+              'writer failure at a node without location at top level). Tie: the `errloc` stream places every kind of failing construct at every '
               'nesting depth, with/without path and start line, compares model and real engine (kind, line, path, cause) and '
               'checks the line against the known position.'),
     "design_ref": 'DESIGN.md 6 C07',
